@@ -16,6 +16,7 @@
 #include <stdio.h>
 #include <string.h>
 #include <sys/mman.h>
+#include <stdlib.h>
 #include <unistd.h>
 
 #if defined(__SANITIZE_ADDRESS__)
@@ -77,6 +78,9 @@ GA_NOSAN static void ga_init_once(void) {
 }
 
 GA_NOSAN static void galloc_reset(void) {
+#ifdef GALLOC_PASSTHROUGH
+    return;
+#endif
     ga_init_once();
     if (ga.high_water) GA_POISON(ga.base, ga.high_water);
     ga.bump = 0;
@@ -88,6 +92,9 @@ GA_NOSAN static void galloc_reset(void) {
 
 GA_NOSAN static void *galloc_acquire(struct aws_allocator *a, size_t size) {
     (void)a;
+#ifdef GALLOC_PASSTHROUGH /* free-running (thread-sanitizer) builds: thread-safe malloc, no bookkeeping */
+    return malloc(size ? size : 1);
+#endif
     ga_init_once();
     size_t r = ga_round(size ? size : 1);
     struct ga_hdr *h = NULL;
@@ -140,6 +147,10 @@ GA_NOSAN static size_t galloc_size_of(const void *ptr) {
 GA_NOSAN static void galloc_release(struct aws_allocator *a, void *ptr) {
     (void)a;
     if (!ptr) return;
+#ifdef GALLOC_PASSTHROUGH
+    free(ptr);
+    return;
+#endif
     if (!galloc_is_live(ptr)) {
         ga.bad_release++;
         fprintf(stderr, "galloc: release of non-live pointer %p\n", ptr);
@@ -164,6 +175,9 @@ GA_NOSAN static void galloc_release(struct aws_allocator *a, void *ptr) {
 
 GA_NOSAN static void *galloc_realloc(struct aws_allocator *a, void *ptr, size_t oldsize, size_t newsize) {
     (void)oldsize;
+#ifdef GALLOC_PASSTHROUGH
+    return realloc(ptr, newsize ? newsize : 1);
+#endif
     if (!ptr) return galloc_acquire(a, newsize);
     struct ga_hdr *h = (struct ga_hdr *)((uint8_t *)ptr - GA_RZ);
     size_t cur = (size_t)h->size;
